@@ -24,6 +24,7 @@ type ProxyCase struct {
 		HasFast  bool   `json:"hasFast"`
 		Ewma     bool   `json:"ewma"`
 		Total    int64  `json:"total"`
+		Prov     int64  `json:"prov"`
 		UseFast  bool   `json:"useFast"`
 		Script   []struct {
 			N   int    `json:"n"`
@@ -137,6 +138,9 @@ func runProxyCase(c *ProxyCase, wrapDepth int) string {
 		opts = append(opts, mpb.AppendDecorators(d), mpb.PrependDecorators(rec2))
 	}
 	bar := p.AddBar(c.Cfg.Total, opts...)
+	if c.Cfg.Prov > 0 {
+		bar.SetTotal(c.Cfg.Prov, false) // an estimate of the size: completion stays off
+	}
 	defer func() { bar.Abort(false); p.Wait() }()
 	s := &scripted{c: c}
 	var gotN []int
